@@ -253,7 +253,7 @@ def specs(w, avoid_copy_shadow: bool = False):
     shapes4 = gen.dag_shapes(4)
     kinds = ["method", "static", "class", "pget", "pset", "pdel", "method"]
     idx = 0
-    rounds = 4 if thorough else 1
+    rounds = 10 if thorough else 3
     for rnd in range(rounds):
         pool = shapes + (shapes4 if thorough else rng.sample(shapes4, 30))
         for shape in pool:
